@@ -121,6 +121,10 @@ def batch_c09(tier, sd):
             d['types'][b] = {'form': 'ptr'}
             p['requires'] = [a, 'ctx', b] + list(p['requires'])
         base.append(d)
+    # several Async sources, fallible or not, and a synchronous tail: which providers can fail on which goroutine decides
+    # nothing about the signature (error result iff a NEEDED provider can fail, wherever it runs)
+    for i in range(8 if quick else 40):
+        base.append(ds.sources_decl(rng, 'k%03d' % i, p_fallible=rng.choice([0.3, 0.6]), nsync=(0 if i % 2 else None)))
     base = [d for d in base if ds.accepts(d)]
     # the requested type supplied only by a field of an expanded struct (valid; cycles / duplicates / orphans planted below)
     fr = []
